@@ -192,8 +192,9 @@ def run_optimization(case, R):
     tarr = adj_years if multi else adj_year
     for i, pn in enumerate(prognames[:n_adj]):
         if (u[1] * 10 + i) % 2 < 1:
-            adjustments.append(OP.SpendingAdjustment(pn, tarr, "rel", 0.5, 2.0))
-            adj_specs.append((pn, "rel", 0.5, 2.0))
+            lo_r, hi_r = [(0.5, 2.0), (0.9, 1.5), (0.8, 3.0)][(int(u[1] * 100) + i) % 3]  # (tight relative limits make the rescaling to the total run into them)
+            adjustments.append(OP.SpendingAdjustment(pn, tarr, "rel", lo_r, hi_r))
+            adj_specs.append((pn, "rel", lo_r, hi_r))
         else:
             adjustments.append(OP.SpendingAdjustment(pn, tarr, "abs", 0.0, 1e7))
             adj_specs.append((pn, "abs", 0.0, 1e7))
